@@ -9,6 +9,7 @@ package fdo
 // ChainOk(v) is DEFINED as "VerifyEntries(v) succeeded"; what that means is
 // pinned down by the step contract of validateNextEntry below.
 //@ func fdo.Voucher.VerifyEntries
+//@   params v
 //@   props C04 C10(sweep)
 //@   sweep bounds,panic,make,nilmem
 //@   modifies nothing
@@ -19,6 +20,7 @@ package fdo
 //@   callassert validateNextEntry#1: @startargs arg1 == v.Entries[0].Payload.Val.PreviousHash.Algorithm && arg4 == 0 && u(arg5) == u(v.Entries)
 
 //@ func fdo.validateNextEntry
+//@   params prevOwnerKey alg prevHash headerInfoHash i entries
 //@   props C04 C01 C06 C10(sweep)
 //@   sweep bounds,panic,make,nilmem
 //@   requires @nonempty len(entries) > 0
@@ -34,6 +36,7 @@ package fdo
 //@   callassert validateNextEntry#1: @nextargs arg1 == alg && bytes(arg3) == bytes(headerInfoHash) && arg4 == i+1 && u(arg5) == u(entries[1:])
 
 //@ func fdo.Voucher.OwnerPublicKey
+//@   params v
 //@   props C04 C06 C01 C10(sweep)
 //@   sweep bounds,panic,nilmem
 //@   pure
@@ -43,6 +46,7 @@ package fdo
 // ---- TO0 (C06) --------------------------------------------------------------------------------
 
 //@ func fdo.TO0Server.acceptOwner
+//@   params s ctx msg
 //@   props C06 C07(functional) C08 C10(sweep)
 //@   sweep bounds,panic,make,nilmem,nooverflow
 //@   callassert SetRVBlob#1: @to0dhash bytes(sig.To1d.Payload.Val.To0dHash.Value) == digest(happ(hinit(u(hashfn(sig.To1d.Payload.Val.To0dHash.Algorithm))), Enc(u(sig.To0d.Val))))
@@ -56,6 +60,7 @@ package fdo
 // DevKeyOf(v) is DEFINED as the key DevicePublicKey returns; the body pins it
 // to the first certificate of the device chain.
 //@ func fdo.Voucher.DevicePublicKey
+//@   params v
 //@   props C04 C07 C02 C10(sweep)
 //@   sweep bounds,panic,nilmem
 //@   pure
@@ -64,6 +69,7 @@ package fdo
 //@   ensures! err == nil ==> u(result0) == DevKeyOf(u(*v))
 
 //@ func fdo.Voucher.VerifyManufacturerKey
+//@   params v keyHash
 //@   props C04 C01 C10(sweep)
 //@   sweep bounds,panic,nilmem
 //@   modifies nothing
@@ -71,6 +77,7 @@ package fdo
 //@   ensures @alg err == nil ==> keyHash.Algorithm == -16 || keyHash.Algorithm == -43
 
 //@ func fdo.Voucher.VerifyCertChainHash
+//@   params v
 //@   props C04 C10(sweep)
 //@   sweep bounds,panic,nilmem
 //@   modifies nothing
@@ -79,6 +86,7 @@ package fdo
 
 // header MAC: the MAC over the re-encoded header, under the device's secret
 //@ func fdo.hmacVerify
+//@   params h256 h384 h1 v
 //@   props C04 C01 C10(sweep)
 //@   sweep bounds,nilmem
 //@   requires @h256 h256 != nil
@@ -88,6 +96,7 @@ package fdo
 //@   ensures! err == nil ==> HeaderMacOk(u(h1), encarg(v), u(h256), u(h384))
 
 //@ func fdo.Voucher.VerifyHeader
+//@   params v hmacSha256 hmacSha384
 //@   props C04 C01 C10(sweep)
 //@   sweep bounds,nilmem
 //@   requires @h256 hmacSha256 != nil
@@ -97,6 +106,7 @@ package fdo
 // ---- TO1 server (C07) ---------------------------------------------------------------------
 
 //@ func fdo.TO1Server.rvRedirect
+//@   params s ctx msg
 //@   props C07 C08 C10(sweep)
 //@   sweep bounds,panic,make,nilmem
 //@   ensures @nonce ? err == nil ==> bytes(nonce) == TO1NonceOf(u(ctx))
@@ -109,6 +119,7 @@ package fdo
 // ---- TO2 device side (C01) -----------------------------------------------------------------
 
 //@ func fdo.sendHelloDevice
+//@   params ctx transport c
 //@   maxpaths 2000
 //@   modifies nothing
 //@   props C01 C10(sweep)
@@ -122,6 +133,7 @@ package fdo
 //@   ensures! err == nil ==> HdrProven(u(result1.PublicKeyToValidate), u(result1.OVH), u(result1.OVHHmac))
 
 //@ func fdo.sendNextOVEntry
+//@   params ctx transport i
 //@   props C01 C10(sweep)
 //@   sweep bounds,panic,make,nilmem
 //@   modifies nothing
@@ -130,6 +142,7 @@ package fdo
 //@   ensures @nonnil err == nil ==> result0 != nil
 
 //@ func fdo.verifyVoucher
+//@   params ctx transport to1d info c
 //@   props C01 C07 C10(sweep)
 //@   sweep bounds,panic,make,nilmem
 //@   modifies nothing
@@ -144,20 +157,25 @@ package fdo
 
 // ---- helpers with several outcomes: summarised by contract (no inlining) --------
 //@ func fdo.captureErr
+//@   params ctx code err
 //@   nopaths
 //@   modifies nothing
 //@ func fdo.captureMsgType
+//@   params ctx msgType
 //@   nopaths
 //@   modifies nothing
 //@ func fdo.errorMsg
+//@   params ctx transport err
 //@   nopaths
 //@   modifies nothing
 //@ func fdo.contextWithErrMsg
+//@   params parent
 //@   nopaths
 //@   pure
 //@   ensures result != nil
 
 //@ func fdo.newHash
+//@   params alg
 //@   props C10(sweep)
 //@   sweep panic
 //@   pure
@@ -169,12 +187,14 @@ package fdo
 
 // ---- signature option / sig-info / key-type tables (C09) ------------------------
 //@ func fdo.sigInfoFor
+//@   params key usePSS
 //@   props C09 C10(sweep)
 //@   sweep panic,nilmem,bounds
 //@   pure
 //@   ensures @nonnil err == nil ==> result0 != nil && sigregistered(result0.Type)
 
 //@ func fdo.signOptsFor
+//@   params key usePSS
 //@   props C09 C10(sweep)
 //@   sweep panic,nilmem,bounds,typeassert
 //@   pure
@@ -182,6 +202,7 @@ package fdo
 // every signature algorithm the library produces maps to a key type, and
 // nothing else does (unsupported values are errors, not a different choice)
 //@ func fdo.keyTypeFor
+//@   params alg
 //@   props C09 C10(sweep)
 //@   sweep panic,nilmem,bounds
 //@   pure
@@ -193,6 +214,7 @@ package fdo
 // of this session's GUID, carries this session's nonce and names that GUID.
 //@ spec macro devproven(proofobj, ov, guid, ctx, nonceClaim, ueidClaim) = SigOk(u(proofobj), DevKeyOf(u(*ov))) && u(ov) == VoucherFor(u(guid)) && u(guid) == SessGUID(u(ctx)) && bytes(nonceClaim) == ProveDvNonceOf(u(ctx)) && len(ueidClaim) == 17 && ueidClaim[0] == 1
 //@ func fdo.TO2Server.setupDevice
+//@   params s ctx msg
 //@   props C02 C08 C10(sweep)
 //@   sweep bounds,panic,make,nilmem
 //@   callassert SetParameter#1: @proven devproven(proof.Sign1, ov, guid, ctx, nonceClaim, ueidClaim)
@@ -207,33 +229,39 @@ package fdo
 //@   ensures @early err == nil ==> result0 != nil
 
 //@ func fdo.TO2Server.replacementCredential
+//@   params s ctx ov
 //@   nopaths
 //@   modifies nothing
 
 // ---- responders: every request is answered by the next message type or by an
 // error message (255), never by anything else (C08, C10) ----------------------------------
 //@ func fdo.DIServer.Respond
+//@   params s ctx msgType msg
 //@   props C08 C10
 //@   sweep bounds,panic,make,nilmem
 //@   ensures @answer respType == 255 || ((msgType == 10 || msgType == 12) && respType == msgType + 1)
 //@   ensures @nonnil respType == 255 ==> resp != nil
 //@ func fdo.TO0Server.Respond
+//@   params s ctx msgType msg
 //@   props C08 C10
 //@   sweep bounds,panic,make,nilmem
 //@   ensures @answer respType == 255 || ((msgType == 20 || msgType == 22) && respType == msgType + 1)
 //@   ensures @nonnil respType == 255 ==> resp != nil
 //@ func fdo.TO1Server.Respond
+//@   params s ctx msgType msg
 //@   props C08 C10
 //@   sweep bounds,panic,make,nilmem
 //@   ensures @answer respType == 255 || ((msgType == 30 || msgType == 32) && respType == msgType + 1)
 //@   ensures @nonnil respType == 255 ==> resp != nil
 //@ func fdo.TO2Server.Respond
+//@   params s ctx msgType msg
 //@   props C08 C10
 //@   sweep bounds,panic,make,nilmem
 //@   ensures @answer respType == 255 || ((msgType == 60 || msgType == 62 || msgType == 64 || msgType == 66 || msgType == 68 || msgType == 70) && respType == msgType + 1)
 //@   ensures @nonnil respType == 255 ==> resp != nil
 
 //@ func fdo.errMsgFromContext
+//@   params ctx
 //@   nopaths
 //@   pure
 //@   ensures result != nil
@@ -242,6 +270,7 @@ package fdo
 
 // OwnerProven(sess) is DEFINED as "verifyOwner returned this session without error".
 //@ func fdo.verifyOwner
+//@   params ctx transport to1d c
 //@   props C01 C10(sweep)
 //@   sweep bounds,panic,make
 //@   modifies nothing
@@ -252,6 +281,7 @@ package fdo
 
 // DeviceProven(sess) is DEFINED as "proveDevice returned without error for this session".
 //@ func fdo.proveDevice
+//@   params ctx transport proveDeviceNonce ownerPublicKey sess c
 //@   props C01 C03 C10(sweep)
 //@   sweep bounds,panic,make
 //@   modifies nothing
@@ -261,6 +291,7 @@ package fdo
 //@   ensures! err == nil ==> DeviceProven(u(sess))
 
 //@ func fdo.reuseCredentials
+//@   params ctx replacementOVH ownerPublicKey c
 //@   nopaths
 //@   modifies nothing
 
@@ -268,6 +299,7 @@ package fdo
 // (contract of fdo.exchangeServiceInfo: see the C16 block at the end of this file)
 
 //@ func fdo.sendReadyServiceInfo
+//@   params ctx transport alg replacementOVH sess c
 //@   props C03 C10(sweep)
 //@   sweep bounds,make
 //@   requires @alg alg == -16 || alg == -43 || alg == 5 || alg == 6
@@ -280,6 +312,7 @@ package fdo
 // the given keyed hash, of the encoding of exactly the given value; a failure of a
 // fallible (hardware) hash while finalising is reported, never returned as a MAC
 //@ func fdo.hmacHash
+//@   params h v
 //@   props C03 C01 C10(sweep)
 //@   sweep bounds,nilmem
 //@   modifies nothing
@@ -287,12 +320,14 @@ package fdo
 //@   ensures @alg err == nil ==> result0.Algorithm == 5 || result0.Algorithm == 6
 
 //@ func fdo.hashAlgFor
+//@   params devicePubKey ownerPubKey
 //@   props C04 C09 C10(sweep)
 //@   sweep bounds,panic,nilmem
 //@   pure
 //@   ensures @algs err == nil ==> result0 == -16 || result0 == -43
 
 //@ func fdo.TO2
+//@   params ctx transport to1d c
 //@   props C01 C03 C10(sweep)
 //@   sweep bounds,panic,make
 //@   maxpaths 20000
@@ -307,12 +342,14 @@ package fdo
 
 // ---- TO2 owner side: replacement voucher at Done (C03, C08) ------------------------------
 //@ func fdo.TO2Server.ownerKey
+//@   params s ctx keyType keyEncoding rsaBits
 //@   nopaths
 //@   pure
 //@   ensures err == nil ==> result0 != nil && result1 != nil
 //@   ensures! err == nil ==> u(*result1) == OwnerKeyFor(u(keyType), u(keyEncoding), u(rsaBits))
 
 //@ func fdo.TO2Server.to2Done2
+//@   params s ctx msg
 //@   props C03 C08 C10(sweep)
 //@   sweep bounds,panic,make,nilmem
 //@   callsites ReplaceVoucher 1
@@ -324,6 +361,7 @@ package fdo
 //@   ensures @reply err == nil ==> result0 != nil && u(result0.NonceTO2SetupDv) == SetupDvNonceOf(u(ctx))
 
 //@ func fdo.TO2Server.ownerServiceInfoReady
+//@   params s ctx msg
 //@   props C03 C08 C10(sweep)
 //@   sweep bounds,panic,make,nilmem
 //@   callassert SetReplacementHmac#1: @fromdevice u(arg2) == u(*deviceReady.Hmac)
@@ -331,6 +369,7 @@ package fdo
 
 // ---- DI (C03): credential and stored voucher are built from the same header -----------
 //@ func fdo.DI
+//@   params ctx transport info c
 //@   props C03 C10(sweep)
 //@   sweep bounds,panic,make
 //@   ensures @nocred err != nil ==> result0 == nil
@@ -340,6 +379,7 @@ package fdo
 //@   callassert setHmac#1: @secret (alg == -16 && u(arg2) == u(c.HmacSha256)) || (alg == -43 && u(arg2) == u(c.HmacSha384))
 
 //@ func fdo.appStart
+//@   params ctx transport info
 //@   props C03 C10(sweep)
 //@   sweep bounds,panic,make,nilmem
 //@   modifies nothing
@@ -347,6 +387,7 @@ package fdo
 //@   ensures @nonnil err == nil ==> result0 != nil
 
 //@ func fdo.setHmac
+//@   params ctx transport hmac ovh
 //@   props C03 C10(sweep)
 //@   sweep bounds,panic,make,nilmem
 //@   modifies nothing
@@ -354,6 +395,7 @@ package fdo
 //@   callassert Send#1: @msg12 arg2 == 12 && arg4 == nil && u(msg.Hmac) == u(ovhHash)
 
 //@ func fdo.DIServer.diDone
+//@   params s ctx msg
 //@   props C03 C08 C10(sweep)
 //@   sweep bounds,panic,make,nilmem
 //@   callsites AddVoucher 1
@@ -361,6 +403,7 @@ package fdo
 //@   callassert AddVoucher#1: @chain u(deviceCertChain) == DevChainOf(u(ctx))
 
 //@ func fdo.DIServer.setCredentials
+//@   params s ctx msg
 //@   props C03 C08 C10(sweep)
 //@   sweep make
 //@   callsites SetIncompleteVoucherHeader 1
@@ -371,6 +414,7 @@ package fdo
 // and size, signs; the new entry carries exactly the hashes validateNextEntry
 // recomputes (C04) --------------------------------------------------------------------------------------
 //@ func fdo.ExtendVoucher
+//@   params v owner nextOwner extra
 //@   props C04 C03 C10(sweep)
 //@   sweep bounds,panic,make
 //@   callsites newSignedEntry 1
@@ -381,10 +425,12 @@ package fdo
 //@   callassert newSignedEntry#1: @nextkey u(arg2.PublicKey) == u(*nextOwnerPublicKey)
 
 //@ func fdo.newSignedEntry
+//@   params owner usePSS payload
 //@   nopaths
 //@   modifies nothing
 //@   ensures err == nil ==> result0 != nil
 //@ func fdo.Voucher.shallowClone
+//@   params v
 //@   nopaths
 //@   pure
 //@   ensures result != nil
@@ -392,6 +438,7 @@ package fdo
 // the owner produces service info only with the MTU the device announced in
 // message 66 (no MTU in the session = 66 was skipped = error) (C08)
 //@ func fdo.TO2Server.produceOwnerServiceInfo
+//@   params s ctx moduleName module
 //@   props C08 C16 C10(sweep)
 //@   sweep bounds,panic,make
 //@   callsites NewProducer 1
@@ -414,6 +461,7 @@ package fdo
 // flag (set by a previous "active" message) is true; the module handed over is
 // the one looked up under the name in front of the ':' of the key.
 //@ func fdo.handleOwnerModuleMessages
+//@   params ctx prevModuleName modules ownerInfo send
 //@   props C16 C10(sweep)
 //@   sweep bounds,panic,make,nilmem,div
 //@   callsites handleOwnerModuleMessage 1
@@ -430,21 +478,23 @@ package fdo
 // deactivation or a repeated activation sends nothing; Transition is called
 // exactly when the flag changes.
 //@ func fdo.handleActive
+//@   params prevActive mod moduleName messageBody send
 //@   props C16 C10(sweep)
 //@   sweep bounds,panic,make,nilmem,div
 //@   callsites NextServiceInfo 1
 //@   callsites Transition 1
-//@   callsites Encode 1
+//@   callsites Encode 2
 //@   callassert NextServiceInfo#1: @onlynew !prevActive
 //@   callassert NextServiceInfo#1: @key u(arg1) == u(moduleName) && u(arg2) == u("active")
 //@   callassert Transition#1: @changed arg1 != prevActive
-//@   callassert Encode#1: @unknown dyntype(mod, "serviceinfo.UnknownModule") && moduleName != "devmod" ==> !active
-//@   callassert Encode#1: @value u(unwrap(arg1)) == u(active)
+//@   callassert Encode#2: @unknown dyntype(mod, "serviceinfo.UnknownModule") && moduleName != "devmod" ==> !active
+//@   callassert Encode#2: @value u(unwrap(arg1)) == u(active)
 //@   ensures @unknown err == nil && !prevActive && dyntype(mod, "serviceinfo.UnknownModule") && moduleName != "devmod" ==> !result0
 //@   ensures @reported ? err == nil ==> result0 == active
 
 // the drain check: a module that leaves bytes of a message unread is an error
 //@ func fdo.handleOwnerModuleMessage
+//@   params ctx mod moduleName messageName messageBody send
 //@   props C16 C10(sweep)
 //@   sweep bounds,panic,make,nilmem,div
 //@   callsites Receive 1
@@ -453,6 +503,7 @@ package fdo
 
 // Owner side.
 //@ func fdo.TO2Server.ownerServiceInfo
+//@   params s ctx msg
 //@   props C16 C08 C10(sweep,assert)
 //@   sweep bounds,panic,make,nilmem,div
 //@   callsites Module 1
@@ -470,6 +521,7 @@ package fdo
 
 // devmod on the owner side: complete only with a module list without gaps
 //@ func fdo.devmodOwnerModule.ProduceInfo
+//@   params d _ _
 //@   props C16 C10(sweep)
 //@   sweep bounds,panic,make,nilmem,div
 //@   modifies nothing
@@ -477,11 +529,13 @@ package fdo
 //@   ensures @complete result1 ==> err == nil && d.Modules != nil
 
 //@ func fdo.devmodOwnerModule.parseModules
+//@   params d messageBody
 //@   props C16 C10(sweep)
 //@   sweep bounds,panic,make,nilmem,div
 
 // device side: Done is sent only after the owner reported IsDone
 //@ func fdo.exchangeServiceInfo
+//@   params ctx transport proveDvNonce setupDvNonce mtu initInfo sess c
 //@   props C16 C10(sweep)
 //@   sweep bounds,panic,make
 //@   requires @owner OwnerProven(u(sess))
@@ -497,6 +551,7 @@ package fdo
 // to the reader is what is left, "more" is announced only when a chunk did not fit after
 // at least one was taken; the reader's key invariant is kept across the batch
 //@ func fdo.exchangeServiceInfoRound
+//@   params ctx transport mtu r w sess
 //@   props C15 C16 C10(sweep)
 //@   sweep bounds,panic,make,nilmem
 //@   requires @keyinv r.r != nil ==> hdr(len(r.key)) + len(r.key) <= len(r.rkey)
@@ -508,3 +563,24 @@ package fdo
 //@   callassert ReadChunk#1: @budget arg1 == maxRead
 //@   callassert sendDeviceServiceInfo#1: @more msg.IsMoreServiceInfo ==> maxRead != mtu
 //@   callassert exchangeServiceInfoRound#1: @same arg2 == mtu && u(arg3) == u(r) && u(arg4) == u(w) && u(arg5) == u(sess)
+
+// ---- TO2 owner side, HelloDevice (C02, C09): the proof of ownership is signed only with
+// the key that equals the key of the voucher's last entry, for a voucher with entries,
+// after the key-exchange suite was found valid for (device algorithm, that owner key)
+// and available with the requested cipher; the nonce signed is the one stored for Done
+//@ func fdo.TO2Server.proveOVHdr
+//@   params s ctx msg
+//@   props C02 C09 C08 C10(sweep)
+//@   sweep bounds,panic,make,nilmem
+//@   callsites Sign 1
+//@   callsites New 1
+//@   callsites SetXSession 1
+//@   callassert Sign#1: @ownerkey KeyEq(SignerPub(u(ownerKey)), u(expectedCUPHOwnerKey)) && u(arg1) == u(ownerKey)
+//@   callassert Sign#1: @entries len(ov.Entries) > 0 && numEntries == len(ov.Entries)
+//@   callassert Sign#1: @voucher u(ov) == VoucherFor(u(hello.GUID))
+//@   callassert New#1: @valid validatedfor(expectedCUPHOwnerKey) == u(hello.KexSuiteName)
+//@   callassert New#1: @available SuiteAvail(u(hello.KexSuiteName), u(hello.CipherSuite))
+//@   callassert New#1: @args u(arg0) == u(hello.KexSuiteName) && len(arg1) == 0 && arg2 == hello.CipherSuite
+//@   callassert SetXSession#1: @session u(arg2) == u(hello.KexSuiteName) && u(arg3) == u(sess)
+//@   callassert SetProveDeviceNonce#1: @nonce u(arg2) == u(proveDeviceNonce)
+//@   ensures @nonnil err == nil ==> result0 != nil
